@@ -273,6 +273,29 @@ pub fn es_g(kmax: usize) -> Family {
     Family::list(out)
 }
 
+pub fn es_h_specs(_tier: Tier) -> Vec<(&'static str, &'static [u8], usize)> {
+    vec![
+        ("ES-H {>,6,A} + digit tails", b">6A", 10),
+        ("ES-H {A,1,space,*} + digit tails", b"A1 *", 8),
+        ("ES-H {comma,6,A} + digit tails", b",6A", 10),
+        ("ES-H {comma,6} + digit tails", b",6", 14),
+        ("ES-H {a,*,A} + digit tails", b"a*A", 8),
+        ("ES-H {>,6,A,a} + digit tails", b">6Aa", 8),
+    ]
+}
+
+/// ES-H: every string over `alpha` of length 0..=maxlen followed by 0..=6 digits '1'.
+pub fn es_h(alpha: &[u8], maxlen: usize) -> Family {
+    let fam = Family::Over { alpha: alpha.to_vec(), min: 0, max: maxlen };
+    let mut prefixes = Vec::with_capacity(fam.size() as usize);
+    let mut b = Vec::new();
+    for i in 0..fam.size() {
+        fam.get(i, &mut b);
+        prefixes.push(b.clone());
+    }
+    Family::Tails { prefixes, alpha: vec![b'1'], max: 6 }
+}
+
 struct SPart {
     part: Part,
     strong: bool,
@@ -335,9 +358,37 @@ fn parts(tier: Tier) -> Vec<SPart> {
     // ES-G: a run of k characters native to one mode followed by a short tail of digits / letters:
     // stresses the end-of-data cost models of the planner at every residue of every small capacity
     v.push(SPart { part: Part { name: "ES-G mode runs + digit/letter tails", family: es_g(32), cfgs: gen::cfgs(&[ALL_MODES], &[d, a], &on, &off) }, strong: std::env::var("C10_ESG_WEAK").is_err() });
+    if let Ok(spec) = std::env::var("C10_EXPERIMENT") {
+        // experiment: all strings over the given alphabet of the given length + digit tails
+        let mut it = spec.split(':');
+        let alpha: Vec<u8> = it.next().unwrap().bytes().collect();
+        let lo: usize = it.next().unwrap().parse().unwrap();
+        let hi: usize = it.next().map(|x| x.parse().unwrap()).unwrap_or(lo);
+        let fam = Family::Over { alpha, min: lo, max: hi };
+        let mut out = Vec::new();
+        let mut b = Vec::new();
+        for i in 0..fam.size() {
+            fam.get(i, &mut b);
+            for t in 0..=6 {
+                let mut x = b.clone();
+                x.extend(std::iter::repeat(b'1').take(t));
+                out.push(x);
+            }
+        }
+        v.clear();
+        v.push(SPart { part: Part { name: "experiment", family: Family::list(out), cfgs: gen::cfgs(&[ALL_MODES], &[d], &on, &off) }, strong: true });
+        return v;
+    }
+    // ES-H: all strings over small alphabets that mix characters native to different modes,
+    // followed by a tail of 0..=6 digits. Inputs of up to 20 bytes; the optimiser is not exact on
+    // some of them (phase-blind pruning): those cases are listed in known_sets/ and matched exactly.
+    for (name, alpha, maxlen) in es_h_specs(tier) {
+        v.push(SPart { part: Part { name, family: es_h(alpha, maxlen), cfgs: gen::cfgs(&[ALL_MODES], &[d], &on, &off) }, strong: true });
+    }
     // weak verdict space (strong oracle computed and reported, but it does not decide)
     let mq = gen::modes_quick();
     v.push(SPart { part: Part { name: "W: ES-B sigma10<=4 x mode sets without ASCII", family: Family::Over { alpha: SIGMA10.to_vec(), min: 0, max: 4 }, cfgs: gen::cfgs(&gen::modes_all(), &[d, sq(12, 12)], &on, &off) }, strong: false });
+    v.push(SPart { part: Part { name: "W: ES-I multi-run inputs", family: gen::es_i(tier.pick(14, 24), tier.pick(5, 7)), cfgs: gen::cfgs(&[ALL_MODES], &[d, a], &on, &off) }, strong: false });
     v.push(SPart { part: Part { name: "W: ES-C contexts", family: gen::es_c(false), cfgs: gen::cfgs(&mq, &[d, a], &on, &off) }, strong: false });
     v.push(SPart { part: Part { name: "W: ES-D shifted tails", family: gen::es_d(tier.pick(24, 64), &SIGMA8, tier.pick(2, 3)), cfgs: gen::cfgs(&mq, &[d, a], &on, &off) }, strong: false });
     let mut ce = gen::cfgs(&[ALL_MODES, 1, 0x20, 0x21], &[d, a], &on, &off);
